@@ -58,3 +58,21 @@ Fixpoint path_ok (p : prog) (l : list acfg) : bool :=
 Lemma K1_machine_stuck :
   path_ok k1_prog k1_path = true /\ asteps k1_prog (mkA 4 0 0 []) = [].
 Proof. vm_compute. split; reflexivity. Qed.
+
+(* K5: `1 ?> 2 |> ;;` -- the join entry of the chain is the arm's own entry: when
+   the condition holds the arm is re-entered one operand deeper at every turn *)
+Definition k5_toks : list token_type := [TT_Number; TT_JumpIfTrue; TT_Number; TT_ElseJump; TT_ExpressionTerminator].
+Definition k5_prog : prog := Eval vm_compute in prog_of_build empty_init (built empty_init (parsed k5_toks)).
+Definition k5_path : list acfg :=
+  [mkA 0 0 0 []; mkA 1 1 0 []; mkA 3 0 0 []; mkA 4 1 0 []; mkA 3 1 0 []; mkA 4 2 0 []; mkA 3 2 0 []].
+Definition k5_class : bool :=
+  match parse k5_toks with
+  | Ok (root, nodes) => match tree_of nodes root with Some t => has_chain_terminator t && has_terminator t | None => false end
+  | _ => false
+  end.
+Lemma K5_loop :
+  k5_class = true /\
+  pjump k5_prog 2 = pjump k5_prog 1 /\ pjump k5_prog 1 = Some 3 /\
+  match infer_depths k5_prog with None => true | Some _ => false end = true /\
+  path_ok k5_prog k5_path = true.
+Proof. vm_compute. repeat split; reflexivity. Qed.
